@@ -221,6 +221,8 @@ pub enum Held {
 pub trait Acc {
 	/// (lock id stored in the payload, value seen, value left)
 	fn touch(&mut self, pos: &[usize], write: bool) -> Option<(usize, u64, u64)>;
+	/// Ok/Err verdicts of the poisonable wrappers reached, depth first
+	fn poison_list(&self, out: &mut Vec<bool>);
 }
 
 fn touch_mut(p: &mut Payload, write: bool) -> (usize, u64, u64) {
@@ -281,9 +283,28 @@ impl Acc for Held {
 			}
 		}
 	}
+	fn poison_list(&self, out: &mut Vec<bool>) {
+		self.poison_list_inner(out)
+	}
 }
 
 impl Held {
+	fn poison_list_inner(&self, out: &mut Vec<bool>) {
+		match self {
+			Held::CW(_, g) => g.iter().for_each(|x| x.poison_list(out)),
+			Held::CR(_, g) => g.iter().for_each(|x| x.poison_list(out)),
+			Held::PW(g) => {
+				let ig: &ItemGuard<'static> = g.as_ref();
+				ig.poison_list(out)
+			}
+			Held::PR(g) => {
+				let ig: &ItemRGuard<'static> = g.as_ref();
+				ig.poison_list(out)
+			}
+			_ => {}
+		}
+	}
+
 	fn unlock(self) -> ThreadKey {
 		match self {
 			Held::MG(g) => VMutex::unlock(g),
@@ -378,8 +399,8 @@ enum SData<'a> {
 	OR(Box<[&'a Payload]>),
 	C(Box<[ItemData<'a>]>),
 	CR(Box<[ItemRData<'a>]>),
-	P(ItemData<'a>),
-	PR(ItemRData<'a>),
+	P(bool, ItemData<'a>),
+	PR(bool, ItemRData<'a>),
 }
 
 impl Acc for SData<'_> {
@@ -403,8 +424,23 @@ impl Acc for SData<'_> {
 				let (x, rest) = slice_at_ref(&v[..], pos)?;
 				x.at(&rest).map(touch_ref)
 			}
-			SData::P(d) => d.at(pos).map(|p| touch_mut(p, write)),
-			SData::PR(d) => d.at(pos).map(touch_ref),
+			SData::P(_, d) => d.at(pos).map(|p| touch_mut(p, write)),
+			SData::PR(_, d) => d.at(pos).map(touch_ref),
+		}
+	}
+	fn poison_list(&self, out: &mut Vec<bool>) {
+		match self {
+			SData::C(v) => v.iter().for_each(|x| x.poison_list(out)),
+			SData::CR(v) => v.iter().for_each(|x| x.poison_list(out)),
+			SData::P(e, d) => {
+				out.push(*e);
+				d.poison_list(out)
+			}
+			SData::PR(e, d) => {
+				out.push(*e);
+				d.poison_list(out)
+			}
+			_ => {}
 		}
 	}
 }
@@ -480,41 +516,41 @@ fn scoped<K: Keyable>(
 		}
 		(CollObj::Pois(p), "scoped_lock") => Ok(p.scoped_lock(key, |d| match d {
 			Ok(d) => {
-				body(&mut SData::P(d));
+				body(&mut SData::P(false, d));
 				false
 			}
 			Err(e) => {
-				body(&mut SData::P(e.into_inner()));
+				body(&mut SData::P(true, e.into_inner()));
 				true
 			}
 		})),
 		(CollObj::Pois(p), "scoped_try_lock") => p.scoped_try_lock(key, |d| match d {
 			Ok(d) => {
-				body(&mut SData::P(d));
+				body(&mut SData::P(false, d));
 				false
 			}
 			Err(e) => {
-				body(&mut SData::P(e.into_inner()));
+				body(&mut SData::P(true, e.into_inner()));
 				true
 			}
 		}),
 		(CollObj::Pois(p), "scoped_read") => Ok(p.scoped_read(key, |d| match d {
 			Ok(d) => {
-				body(&mut SData::PR(d));
+				body(&mut SData::PR(false, d));
 				false
 			}
 			Err(e) => {
-				body(&mut SData::PR(e.into_inner()));
+				body(&mut SData::PR(true, e.into_inner()));
 				true
 			}
 		})),
 		(CollObj::Pois(p), "scoped_try_read") => p.scoped_try_read(key, |d| match d {
 			Ok(d) => {
-				body(&mut SData::PR(d));
+				body(&mut SData::PR(false, d));
 				false
 			}
 			Err(e) => {
-				body(&mut SData::PR(e.into_inner()));
+				body(&mut SData::PR(true, e.into_inner()));
 				true
 			}
 		}),
@@ -529,9 +565,10 @@ fn pos_json(pos: &[usize]) -> String {
 	format!("[{}]", v.join(","))
 }
 
-fn run_body(t: usize, ci: usize, body: &[BodyOp], acc: &mut dyn Acc) {
+fn run_body(b: &Built, t: usize, ci: usize, body: &[BodyOp], acc: &mut dyn Acc) {
 	for op in body {
 		match op.o.as_str() {
+			"op" => do_op(b, t, &op.name, op.c),
 			"acc" => {
 				sched::yield_point();
 				if sched::aborting() {
@@ -566,10 +603,60 @@ fn is_scoped(api: &str) -> bool {
 	api.starts_with("scoped_")
 }
 
-fn ret(t: usize, ci: usize, res: &str) {
+fn bools_json(v: &[bool]) -> String {
+	let s: Vec<&str> = v.iter().map(|&b| if b { "true" } else { "false" }).collect();
+	format!("[{}]", s.join(","))
+}
+
+fn ret_errs(t: usize, ci: usize, res: &str, errs: &[bool]) {
 	sched::log(format!(
-		"{{\"e\":\"ret\",\"t\":{},\"ci\":{},\"res\":\"{}\"}}",
-		t, ci, res
+		"{{\"e\":\"ret\",\"t\":{},\"ci\":{},\"res\":\"{}\",\"errs\":{}}}",
+		t,
+		ci,
+		res,
+		bools_json(errs)
+	));
+}
+
+fn ret(t: usize, ci: usize, res: &str) {
+	ret_errs(t, ci, res, &[])
+}
+
+fn debug_obj(obj: CollObj) -> String {
+	match obj {
+		CollObj::Invalid => String::new(),
+		CollObj::Single(x) => format!("{:?}", x),
+		CollObj::Owned(x) => format!("{:?}", x),
+		CollObj::Boxed(x) => format!("{:?}", x),
+		CollObj::Ref(x) => format!("{:?}", x),
+		CollObj::Retry(x) => format!("{:?}", x),
+		CollObj::Pois(x) => format!("{:?}", x),
+	}
+}
+
+/// a non-acquiring operation on collection c
+fn do_op(b: &Built, t: usize, name: &str, c: usize) {
+	if sched::aborting() {
+		return;
+	}
+	sched::log(format!(
+		"{{\"e\":\"op\",\"t\":{},\"name\":\"{}\",\"c\":{},\"ph\":\"begin\",\"res\":\"\"}}",
+		t, name, c
+	));
+	let obj = b.colls[c - 1];
+	let mut res = String::new();
+	match (name, obj) {
+		("debug", o) => {
+			let s = debug_obj(o);
+			std::hint::black_box(&s);
+		}
+		("is_poisoned", CollObj::Pois(p)) => res = p.is_poisoned().to_string(),
+		("clear_poison", CollObj::Pois(p)) => p.clear_poison(),
+		(n, _) => panic!("harness: operation {n} not applicable"),
+	}
+	sched::log(format!(
+		"{{\"e\":\"op\",\"t\":{},\"name\":\"{}\",\"c\":{},\"ph\":\"end\",\"res\":\"{}\"}}",
+		t, name, c, res
 	));
 }
 
@@ -596,8 +683,15 @@ fn exec_call(b: &Built, t: usize, ci: usize, ca: &ProgItem, key: &mut Option<Thr
 	let r = catch_unwind(AssertUnwindSafe(|| {
 		if is_scoped(api) {
 			let body = |acc: &mut dyn Acc| {
-				sched::log(format!("{{\"e\":\"enter\",\"t\":{},\"ci\":{}}}", t, ci));
-				run_body(t, ci, &ca.body, acc);
+				let mut errs = Vec::new();
+				acc.poison_list(&mut errs);
+				sched::log(format!(
+					"{{\"e\":\"enter\",\"t\":{},\"ci\":{},\"errs\":{}}}",
+					t,
+					ci,
+					bools_json(&errs)
+				));
+				run_body(b, t, ci, &ca.body, acc);
 				sched::log(format!("{{\"e\":\"exit\",\"t\":{},\"ci\":{}}}", t, ci));
 			};
 			if ca.key == "lent" {
@@ -624,8 +718,13 @@ fn exec_call(b: &Built, t: usize, ci: usize, ca: &ProgItem, key: &mut Option<Thr
 					ret(t, ci, "wouldblock");
 				}
 				Acquired::Got(mut held, poisoned) => {
-					ret(t, ci, if poisoned { "poisoned" } else { "ok" });
-					run_body(t, ci, &ca.body, &mut held);
+					let mut errs = Vec::new();
+					if matches!(held, Held::PW(_) | Held::PR(_)) {
+						errs.push(poisoned);
+					}
+					held.poison_list(&mut errs);
+					ret_errs(t, ci, if poisoned { "poisoned" } else { "ok" }, &errs);
+					run_body(b, t, ci, &ca.body, &mut held);
 					match ca.rel.as_str() {
 						"drop" => drop(held),
 						"unlock" => *key = Some(held.unlock()),
@@ -673,6 +772,37 @@ pub fn thread_main(b: &Built, sc: &Scen, t: usize) {
 	for (i, item) in sc.progs[t - 1].iter().enumerate() {
 		let go = match item.k.as_str() {
 			"call" => exec_call(b, t, i + 1, item, &mut key),
+			"op" => {
+				do_op(b, t, &item.name, item.c);
+				true
+			}
+			"probe" => {
+				let k = ThreadKey::get();
+				sched::log(format!("{{\"e\":\"probe\",\"t\":{},\"some\":{}}}", t, k.is_some()));
+				drop(k);
+				true
+			}
+			"getkey" => {
+				if key.is_none() {
+					key = ThreadKey::get();
+					sched::log(format!("{{\"e\":\"get\",\"t\":{},\"some\":{}}}", t, key.is_some()));
+				}
+				true
+			}
+			"dropkey" => {
+				if let Some(k) = key.take() {
+					drop(k);
+					sched::log(format!("{{\"e\":\"dropkey\",\"t\":{}}}", t));
+				}
+				true
+			}
+			"forgetkey" => {
+				if let Some(k) = key.take() {
+					std::mem::forget(k);
+					sched::log(format!("{{\"e\":\"forgetkey\",\"t\":{}}}", t));
+				}
+				true
+			}
 			k => panic!("harness: unknown program item {k}"),
 		};
 		if !go {
